@@ -12,17 +12,20 @@ Definition C04_refines_full_statement : Prop :=
   forall p acts t, cmd_abort_free p = true -> sched_abort_free acts = true ->
     direct FUEL0 p acts = Some t -> C04_ok (false, false, p, [], acts, t) = true.
 
-(* Laws, for every command, every schedule and every fuel (exact equality of traces, resolve result
-   codes and done flags included): *)
-Theorem C04_all_of_one_is_that_command : forall f c acts, ref_direct (S f) (CAll [c]) acts = ref_direct f c acts.
+(* Laws, for every command, every fuel and every schedule of inspections, resolutions, drops (exact
+   equality of traces, resolve result codes and done flags included).  Schedules that also spawn further
+   tasks onto the outermost command (cmd.spawn) are excluded: there the wrapped and the bare command
+   differ structurally (the task lands beside the wrapper, not inside it) and the simulation used here
+   does not cover that yet. *)
+Theorem C04_all_of_one_is_that_command : forall f c acts, no_spawn acts = true -> ref_direct (S f) (CAll [c]) acts = ref_direct f c acts.
 Proof. exact all_singleton. Qed.
-Theorem C04_map_effect_identity : forall f c acts, ref_direct (S f) (CIdEff c) acts = ref_direct f c acts.
+Theorem C04_map_effect_identity : forall f c acts, no_spawn acts = true -> ref_direct (S f) (CIdEff c) acts = ref_direct f c acts.
 Proof. exact map_effect_id. Qed.
-Theorem C04_map_event_identity : forall f c acts, ref_direct (S f) (CIdEv c) acts = ref_direct f c acts.
+Theorem C04_map_event_identity : forall f c acts, no_spawn acts = true -> ref_direct (S f) (CIdEv c) acts = ref_direct f c acts.
 Proof. exact map_event_id. Qed.
-Theorem C04_into_identity : forall f c acts, ref_direct (S (S f)) (CInto c) acts = ref_direct f c acts.
+Theorem C04_into_identity : forall f c acts, no_spawn acts = true -> ref_direct (S (S f)) (CInto c) acts = ref_direct f c acts.
 Proof. exact into_id. Qed.
-Theorem C04_nesting_to_any_depth : forall k f c acts, ref_direct (3 * k + f) (wrapn k c) acts = ref_direct f c acts.
+Theorem C04_nesting_to_any_depth : forall k f c acts, no_spawn acts = true -> ref_direct (3 * k + f) (wrapn k c) acts = ref_direct f c acts.
 Proof. exact nesting_invariant. Qed.
 
 (* then: done is a left unit (after one step the whole state is that of c) ... *)
